@@ -3,6 +3,7 @@ package props
 import (
 	"fmt"
 	"math/rand"
+	"reflect"
 	"runtime"
 	"strings"
 	"sync"
@@ -11,6 +12,7 @@ import (
 
 	"github.com/llir/llvm/ir"
 	"github.com/llir/llvm/ir/constant"
+	"github.com/llir/llvm/ir/enum"
 	"github.com/llir/llvm/ir/metadata"
 	"github.com/llir/llvm/ir/types"
 	"github.com/llir/llvm/ir/value"
@@ -27,7 +29,7 @@ func init() {
 		Race:         true,
 		FreshProcess: true,
 		Rule: "built with -race. Each round takes one module (parsed from the corpus or constructed through the API, with unnamed globals, locals and unassigned metadata IDs), in never-printed or already-printed state, and lets N in {2,4,16} goroutines (GOMAXPROCS 2 or 16) start on a barrier and call String/WriteTo/Func.LLString/Block.LLString/Global.LLString/Type/Ident/String on it, while the Yield hooks inside AssignIDs/AssignGlobalIDs/AssignMetadataIDs/WriteTo/Func.LLString inject PRNG Gosched/sleeps; every returned text is compared with a separately built twin printed sequentially (in the fresh scenario only after the first concurrent round, which starts 16 whole-module printers at once: each case runs in its own process, so the first printing activity of the process is concurrent and process-level state initialised by a first print is not warmed up beforehand), and every race-detector report is a violation (de-duplicated by the pair of top llir/llvm frames). " +
-			"Staged rounds (a delay injected at the hook inside AssignMetadataIDs): one goroutine holds the module lock in the metadata numbering pass of a never-printed module until all whole-module printers have started. In the scenarios whole and literalmod a goroutine may also run the numbering passes on their own (AssignMetadataIDs, AssignGlobalIDs, Func.AssignIDs: what WriteTo starts with, public, under the same locks) next to the printers. Scenario literalmod: the module itself is a struct literal (&ir.Module{}) holding unnamed globals, an unnamed function and ID-less metadata made by the constructors; never printed, whole-module printers only. " +
+			"Staged rounds (a delay injected at the hook inside AssignMetadataIDs): one goroutine holds the module lock in the metadata numbering pass of a never-printed module until all whole-module printers have started. In the scenarios whole and literalmod a goroutine may also run the numbering passes on their own (AssignMetadataIDs, AssignGlobalIDs, Func.AssignIDs: what WriteTo starts with, public, under the same locks) next to the printers. Every list of every module (definitions, functions, blocks, instructions, attachments) has three unused slots behind its end, as lists grown by append have, so a printer that appends to a list of the module writes into storage shared with the other printers; the constructed module uses a comdat that its ComdatDefs does not list. Scenario literalmod: the module itself is a struct literal (&ir.Module{}) holding unnamed globals, an unnamed function and ID-less metadata made by the constructors; never printed, whole-module printers only. " +
 			"Scenario literal: a never-printed module whose function, globals, alias and constant expression are built as struct literals (empty Typ caches), whole-module printers only. " +
 			"The constructed module also holds extended-precision constants (x86_fp80, fp128, ppc_fp128, half), a metadata list out of ID order, declarations without linkage and named struct-literal instructions used as typed operands. " +
 			"non-trivial = a round in which at least two printers were inside a print call at the same time (witnessed by the harness' activity counter); distinct by (module, state, N, round)",
@@ -172,6 +174,14 @@ func c13Build(seed int64) *ir.Module {
 	m.NewGlobal("decl", i32)
 	m.NewGlobal("", types.I8Ptr)
 	m.NamedMetadataDefs["nm"] = &metadata.NamedDef{Name: "nm", Nodes: []metadata.Node{md2, md0}}
+	// comdats: one listed in the module, one only used by a global (an unfinished
+	// module: a print must not complete the module's list for its user)
+	listed := &ir.ComdatDef{Name: "listed", Kind: enum.SelectionKindAny}
+	unlisted := &ir.ComdatDef{Name: "unlisted", Kind: enum.SelectionKindLargest}
+	m.ComdatDefs = append(m.ComdatDefs, listed)
+	m.NewGlobalDef("in.listed", constant.NewInt(i32, 5)).Comdat = listed
+	m.NewGlobalDef("in.unlisted", constant.NewInt(i32, 6)).Comdat = unlisted
+	defer spareCapacity(m)
 	nf := 2 + rng.Intn(3)
 	for k := 0; k < nf; k++ {
 		name := ""
@@ -216,6 +226,35 @@ func c13Build(seed int64) *ir.Module {
 	return m
 }
 
+// spareCapacity gives every list of the module, of its functions and of their
+// blocks three unused slots behind its end (as lists grown by append have): a
+// printer that appends to a list of the module writes into storage it shares
+// with every other printer, which the race detector then sees.
+func spareCapacity(m *ir.Module) {
+	grow := func(v reflect.Value) {
+		v = v.Elem()
+		for i := 0; i < v.NumField(); i++ {
+			f := v.Field(i)
+			if f.Kind() != reflect.Slice || !f.CanSet() || f.IsNil() {
+				continue
+			}
+			n := reflect.MakeSlice(f.Type(), f.Len(), f.Len()+3)
+			reflect.Copy(n, f)
+			f.Set(n)
+		}
+	}
+	grow(reflect.ValueOf(m))
+	for _, f := range m.Funcs {
+		grow(reflect.ValueOf(f))
+		for _, b := range f.Blocks {
+			grow(reflect.ValueOf(b))
+		}
+	}
+	for _, g := range m.Globals {
+		grow(reflect.ValueOf(g))
+	}
+}
+
 type c13Stats struct {
 	active    int32
 	maxActive int32
@@ -233,6 +272,7 @@ func c13Parsed(r *fw.Rec, sc string, s corpus.Source, rounds int) {
 		if pmsg != "" || perr != nil {
 			return nil
 		}
+		spareCapacity(m)
 		return m
 	}
 	if mk() == nil {
